@@ -95,6 +95,26 @@ def main():
         uberjob.run(plan0, registry=reg0, output=a0, fresh_time=dt.datetime.max, progress=None, max_workers=1)
     except BaseException as e:
         warm = "%s: %s" % (type(e).__name__, e)
+    # The extremes as "never" / "always" markers: datetime.max denotes an instant after, datetime.min one before, every ordinary instant -
+    # in every process zone, whichever side of UTC it lies on (the conversion overflows on one side only).
+    markers = []
+    ordinary = {"naive": dt.datetime(2024, 6, 1, 12, 0), "aware-utc": dt.datetime(2024, 6, 1, 12, 0, tzinfo=dt.timezone.utc),
+                "aware+14": dt.datetime(2024, 6, 1, 12, 0, tzinfo=dt.timezone(dt.timedelta(hours=14)))}
+    for what, src_t, fresh, want in (("source dated datetime.max", dt.datetime.max, None, True), ("source dated datetime.min", dt.datetime.min, None, False),
+                                     ("source dated datetime.min (fold=1)", dt.datetime.min.replace(fold=1), None, False),
+                                     ("fresh_time=datetime.max", dt.datetime(2020, 1, 1), dt.datetime.max, True), ("fresh_time=datetime.min", dt.datetime(2020, 1, 1), dt.datetime.min, False)):
+        for sk, store_t in ordinary.items():
+            for src_kind in ("ModifiedTimeSource", "store"):
+                try:
+                    logm = []
+                    planm, regm = uberjob.Plan(), uberjob.Registry()
+                    sm = regm.source(planm, uberjob.stores.ModifiedTimeSource(src_t) if src_kind == "ModifiedTimeSource" else St("s", src_t, logm))
+                    am = planm.call(ident, sm)
+                    regm.add(am, St("a", store_t, logm))
+                    uberjob.run(planm, registry=regm, fresh_time=fresh, progress=None, max_workers=1)
+                    markers.append([what, sk, src_kind, logm.count("a") == 1, want, None])
+                except BaseException as e:
+                    markers.append([what, sk, src_kind, None, want, "%s: %s" % (type(e).__name__, e)])
     for ci, c in enumerate(req["cases"]):
         try:
             if c["kind"] == "conv":
@@ -144,7 +164,7 @@ def main():
                 out.append({"written": sorted(x for x in log if x != "pre"), "pre_ran": "pre" in log, "dep_source": dep_source, "reps": {k: describe(v) for k, v in ds.items()}})
         except BaseException as e:
             out.append({"error": "%s: %s" % (type(e).__name__, e)})
-    sys.stdout.write(json.dumps({"uberjob": os.path.dirname(uberjob.__file__), "zone_ok": zone_ok, "warm_up_error": warm,
+    sys.stdout.write(json.dumps({"uberjob": os.path.dirname(uberjob.__file__), "zone_ok": zone_ok, "warm_up_error": warm, "markers": markers,
                                  "tzname": list(time.tzname), "results": out}))
 
 
